@@ -110,8 +110,49 @@ func hoistCommon(as []*Term) []*Term {
 	return append(as, hoisted...)
 }
 
+// tighten: from a < b and not (a+1 < b) (signed, same width) the value of b is a+1. The equality is
+// added as a fact; when b is an input-like constant (the index a goal quantifies over, made a constant)
+// the substitution below then puts index terms into one shape, and the congruence of array reads at
+// `off + b` and `off + a + 1` needs no bit-level reasoning.
+func tighten(as []*Term) []*Term {
+	type pair struct{ a, b *Term }
+	lt := map[pair]bool{}
+	for _, t := range as {
+		if t.Op == "bvslt" {
+			lt[pair{t.Args[0], t.Args[1]}] = true
+		}
+	}
+	if len(lt) == 0 {
+		return as
+	}
+	out := as
+	have := map[*Term]bool{}
+	for _, t := range as {
+		have[t] = true
+	}
+	for _, t := range as {
+		if t.Op != "not" || t.Args[0].Op != "bvslt" {
+			continue
+		}
+		c, b := t.Args[0].Args[0], t.Args[0].Args[1]
+		for p := range lt {
+			if p.b != b || p.a.Sort != c.Sort {
+				continue
+			}
+			if BVAdd(p.a, BVLitI(1, p.a.Sort.W)) == c {
+				eq := Eq(b, c)
+				if !have[eq] {
+					have[eq] = true
+					out = append(out, eq)
+				}
+			}
+		}
+	}
+	return out
+}
+
 func Propagate(as []*Term) []*Term {
-	cur := hoistCommon(flattenAnd(as))
+	cur := tighten(hoistCommon(flattenAnd(as)))
 	for iter := 0; iter < 8; iter++ {
 		facts := map[*Term]*Term{}
 		unit := map[*Term]*Term{} // unit assertion -> the key it contributes to facts
